@@ -48,6 +48,7 @@ def show(t, syn):
 TEMPLATES = [
     [('text', 'a '), ('tag', 'var', 'x'), ('text', ' b')],
     [('tag', 'var', 'x upper'), ('tag', 'var', 'y null="n" html_quote')],
+    [('tag', 'var', 'y null=n/'), ('tag', 'var', 'nosuch missing=/'), ('tag', 'var', 'x missing=-'), ('tag', 'var', 'y null=a/b fmt=%s/')],
     [('block', 'if', 'c', [(None, None, [('text', 'T'), ('tag', 'var', 'x')]), ('else', '', [('text', 'F')])])],
     [('block', 'if', 'c', [(None, None, [('text', '1')]), ('elif', 'd', [('text', '2')]), ('else', '', [('text', '3')])]), ('text', '!')],
     [('block', 'in', 's', [(None, None, [('text', '['), ('tag', 'var', 'sequence-item'), ('text', ']')]), ('else', '', [('text', 'E')])])],
@@ -74,10 +75,18 @@ def search(big=False):
             variants.append((syn, src, cls(src)))
         for (s1, src1, t1), (s2, src2, t2) in itertools.combinations(variants, 2):
             n += 1
-            t1.cook()
-            t2.cook()
-            if norm(t1._v_blocks) != norm(t2._v_blocks):
-                return n, dict(a=src1, b=src2, what='the two syntaxes compile to different programs')
+            cooked = []
+            for tt in (t1, t2):
+                try:
+                    tt.cook()
+                    cooked.append(('ok', norm(tt._v_blocks)))
+                except Exception as e:  # noqa
+                    cooked.append(('raise', type(e).__name__))
+            if cooked[0] != cooked[1]:
+                return n, dict(a=src1, b=src2, what='the two syntaxes compile to different programs',
+                               outcomes=[c if c[0] == 'raise' else 'compiled' for c in cooked])
+            if cooked[0][0] == 'raise':
+                continue
             for ns in NAMESPACES:
                 n += 1
                 r = []
